@@ -479,6 +479,41 @@ pub fn three_answers(src: &[u8], qs: &[Value]) -> Vec<Value> {
         .collect()
 }
 
+/// count / last / nth / size_hint of the frame iterators of the three principal handles
+pub fn adaptor_answers(src: &[u8], qs: &[Value]) -> Vec<Value> {
+    use crate::handles::{parse_query, with_handle, HANDLES};
+    let parsed: Vec<_> = qs.iter().map(parse_query).collect();
+    let mut per_handle: Vec<Vec<Value>> = vec![];
+    for h in HANDLES {
+        let src2 = src.to_vec();
+        let pr = &parsed;
+        let res = guarded(std::panic::AssertUnwindSafe(move || {
+            with_handle(h, &src2, |handle| {
+                pr.iter()
+                    .map(|q| {
+                        let hr = std::panic::AssertUnwindSafe(handle);
+                        guarded(move || hr.adaptors(q)).unwrap_or_else(|p| json!({"panic": p}))
+                    })
+                    .collect::<Vec<_>>()
+            })
+        }));
+        per_handle.push(match res {
+            Ok(Ok(v)) => v,
+            Ok(Err(e)) => qs.iter().map(|_| json!({"error": e})).collect(),
+            Err(p) => qs.iter().map(|_| json!({"panic": p})).collect(),
+        });
+    }
+    (0..qs.len())
+        .map(|k| {
+            let mut m = serde_json::Map::new();
+            for (i, h) in HANDLES.iter().enumerate() {
+                m.insert(h.to_string(), per_handle[i][k].clone());
+            }
+            Value::Object(m)
+        })
+        .collect()
+}
+
 /// "ok" unless the recorded answer is a panic or an error of the library
 pub fn status_of(v: &Value) -> &'static str {
     if v.get("panic").is_some() {
@@ -601,6 +636,13 @@ fn retrace(sink: &mut Sink, o: &Opts) {
                 sink.emit(json!({"t": "call", "sid": sid + 1, "api": "remap_stacktrace_typed", "arg": [], "levels": levels,
                                  "detail": {"mapper": detail_of(&out["mapper"]), "cache": detail_of(&out["cache"])},
                                  "status": {"mapper": status_of(&out["mapper"]), "cache": status_of(&out["cache"])}}));
+            }
+        }
+        // the Iterator interface of the frame iterators beyond next(): count / last / nth / size_hint
+        if !wild {
+            let fq: Vec<Value> = qs.iter().filter(|q| q["t"] == "frame").take(40).cloned().collect();
+            for (q, a) in fq.iter().zip(adaptor_answers(src, &fq)) {
+                sink.emit(json!({"t": "adapt", "sid": sid + 1, "q": q, "got": a}));
             }
         }
         let answers = three_answers(src, &qs);
